@@ -63,6 +63,17 @@ C09 / C10 finding (max_iter = 1, leading unit batch dimension, break-down member
 member) are attributed to that entry (label `attributed:<id>`), never re-reported; the generator avoids the cheap ones
 by construction while they are open.
 
+Exceptions: a NotPSDError "after repeatedly adding jitter" is accepted for numerically singular members; an exception
+counts as the library *declining* the operation only if it has the form of an explicit "not supported" (lov.exc) AND is
+raised by / names this factorization (e.g. "Cannot run Cholesky with KeOps"); everything else is a violation `exc:<Type>@<where>`.
+
+Generator-side exclusions (DESIGN 1.6.4), all pure functions of the JSON case applied by `normalise`: for every *open* entry of
+known_findings.json whose trigger is in TRIGGERS (this property's own findings) the triggering feature is replaced (method ->
+a direct one, svd -> eigh, probes -> one column); for open entries of other properties whose condition a C06 case can reach
+(C09 max_iter = 1 / leading unit batch / jitter on all entries, C10 exhausted batch member, C02 batched constants inside the
+batched KroneckerAddedDiag root, C15 Triangular(<structured>).inverse() inside CholLinearOperator.root_inv_decomposition) the
+cheap ones are avoided likewise.  With no open entry everything is generated.  Every avoidance is labelled `avoided:<name>`.
+
 Violation signature: "C06|<operation:method>|<sub-check>|<head class>|<symptom>", sub-check in {recon, orth, tri, sign,
 shape, dtype, finite, exc}.  Before a failure is reported the same case is re-run on every proper sub-recipe that
 is itself a symmetric PSD (PD for inverse roots) operator; the smallest failing one gets the blame.
@@ -82,7 +93,7 @@ from lov.findings import load as load_findings
 
 ID = "C06"
 RULE = (
-    "case = (PSD / PD operator recipe: head class drawn from the 27 classes that can denote a PSD matrix, nesting <= 3, "
+    "case = (PSD / PD operator recipe: head class drawn from the 27 classes that can denote a PSD matrix (per-class quota, classes with a factorization override twice), nesting <= 3 (4 thorough), "
     "n in 1..6, batch kinds, f32/f64; or a Dense/Minimal leaf with a prescribed spectrum [uniform / clusters / geometric / "
     "outlier / repeated, kappa up to 1e6, rank deficient]) x operation in {cholesky(upper F/T), torch.linalg.cholesky, "
     "root_decomposition(method in None/cholesky/symeig/svd/lanczos/pivoted_cholesky/diagonalization), "
@@ -119,7 +130,7 @@ OVERRIDE_HEADS = [
     "ConstantMul", "BlockDiag", "BlockInterleaved", "BatchRepeat", "Chol", "Root", "LowRankRoot", "Mul",
 ]
 GENERIC_HEADS = [
-    "Dense", "Minimal", "Toeplitz", "Kernel", "KeOps", "LowRankRootAddedDiag", "Sum", "PsdSum", "SumBatch", "Interpolated", "Masked",
+    "Dense", "Minimal", "Toeplitz", "Kernel", "KeOps", "LowRankRootAddedDiag", "Sum", "PsdSum", "SumBatch", "Interpolated", "Interpolated", "Masked",
 ]
 HEADS = OVERRIDE_HEADS * 2 + GENERIC_HEADS
 
@@ -504,12 +515,14 @@ def _vectors(draw, batch, n, m, dt):
 KRON_HEADS = ("Kronecker", "KroneckerDiag", "KroneckerAddedDiag", "SumKronecker")
 
 
+PSD_ONLY_HEADS = ("Interpolated", "LowRankRoot", "Kernel", "KeOps")  # classes the generator cannot make positive definite
+
+
 @st.composite
-def _recipe(draw, dom, max_depth, ex):
+def _recipe(draw, hd, dom, max_depth, ex):
     """Head class first (quota per class), then a size / batch / depth the class accepts; built with gen's makers."""
     dt = draw(st.sampled_from(["f64", "f64", "f32"]))
     cfg = gen.Cfg(dt=dt, max_dim=6, exclude=ex)
-    hd = draw(st.sampled_from(HEADS))
     if hd in KRON_HEADS:
         n = draw(st.sampled_from([4, 4, 6]))
     else:
@@ -536,7 +549,12 @@ def cases(draw, tier):
             opn = "root"
         dom = dom2
     elif src <= 7:
-        r = draw(_recipe(dom, max_depth, ex))
+        hd = draw(st.sampled_from(HEADS))
+        if hd in PSD_ONLY_HEADS:
+            if opn == "root_inv":
+                opn = "root"
+            dom = "psd"
+        r = draw(_recipe(hd, dom, max_depth, ex))
     else:
         r = draw(gen.recipes(dom, max_depth=max_depth, exclude=ex))
     shp = refmodel.shape(r)
